@@ -118,7 +118,80 @@ def cls_inline_math_then_dollar(f):
     return False
 
 
+def cls_renamed_item_replace_only_child(f):
+    """C15: the failing history renames an \\item and later replaces the only
+    remaining child of that renamed command."""
+    h = f.inp if isinstance(f.inp, (list, tuple, dict, str)) else None
+    txt = json.dumps(h, default=str) if h is not None else ''
+    return ('rename' in txt and 'replace' in txt and 'item' in txt
+            and 'TypeError' in json.dumps([f.observed, f.note], default=str))
+
+
+def cls_bracket_env_name(f):
+    """C08/C07: the only unexplained difference is a bracket group used as the
+    name of \\begin / \\end, printed back with braces."""
+    src = f.inp if isinstance(f.inp, str) else None
+    out = f.observed if isinstance(f.observed, str) else None
+    if src is None or out is None:
+        return False
+    norm = re.sub(r'(\\(?:begin|end)[ \t]*\n?[ \t]*)\[([^\[\]{}\\$%]*)\]', r'\1{\2}', src)
+    if norm == src:
+        return False
+    import oracles_parse as op
+    if f.kind == 'tolerant-output-not-input-plus-closers':
+        names = set(re.findall(r'\\begin\{([^{}]*)\}', out))
+        return op.only_closers_inserted(norm, out, names) is None
+    if f.kind == 'characters-not-conserved':
+        return op.removed_arg_space_alignment(norm, out) is None
+    return False
+
+
+def cls_skip_name_not_five_tokens(f):
+    """C11: a user-supplied skip name that is not one Text token."""
+    names = (f.opts or {}).get('skip_envs', [])
+    return any(not re.fullmatch(r'[A-Za-z*]+', n or '') for n in names)
+
+
+def reproduces(k):
+    """Replay the recorded example of a known finding on the current tree."""
+    import impl
+    kid = k['id']
+    try:
+        if kid == 'KF-env-name-padding':
+            s = '\\begin{ a }x\\end{a}'
+            return str(impl.parse(s)) != s
+        if kid == 'KF-bracket-env-name':
+            s = '\\begin{a}\\end[a]x'
+            return str(impl.parse(s)) != s
+        if kid == 'KF-skip-name-not-five-tokens':
+            s = '\\begin{a[b}x\\end{a[b}y'
+            return str(impl.parse(s, 0, ('a[b',))) != s
+        if kid == 'KF-skip-env-body-group':
+            soup = impl.parse('\\begin{verbatim}\n{x}\n\\end{verbatim}')
+            return [str(c) for c in soup.verbatim.expr._contents] != ['\n{x}\n']
+        if kid == 'KF-inline-then-dollar':
+            try:
+                impl.parse('$a$$b$')
+                return False
+            except EOFError:
+                return True
+        if kid == 'KF-renamed-item-replace-only-child':
+            soup = impl.parse('\\begin{itemize}\\item\\c\\end{itemize}')
+            soup.contents[0].contents[0].name = 'foo'
+            try:
+                soup.contents[0].contents[0].contents[0].replace_with('X')
+            except TypeError:
+                return str(soup) != '\\begin{itemize}\\fooX\\end{itemize}'
+            return str(soup) != '\\begin{itemize}\\fooX\\end{itemize}'
+    except Exception:      # noqa
+        return True
+    return True
+
+
 CLASSIFIERS = {
+    'renamed_item_replace_only_child': cls_renamed_item_replace_only_child,
+    'bracket_env_name': cls_bracket_env_name,
+    'skip_name_not_five_tokens': cls_skip_name_not_five_tokens,
     'env_name_padding': cls_env_name_padding,
     'skip_env_body_starts_with_group': cls_skip_env_body_starts_with_group,
     'inline_math_then_dollar': cls_inline_math_then_dollar,
